@@ -1084,7 +1084,7 @@ impl Check for C10 {
             let mut other: Vec<Value> = vec![];
             for q in c.batches[0].iter() {
                 let mut q2 = q.clone();
-                q2["_qid"] = json!(q["_qid"].as_u64().unwrap_or(0) + 1000);
+                q2["_qid"] = json!(q["_qid"].as_u64().unwrap_or(0) % 1000 + 1000);
                 other.push(q2);
             }
             while other.len() < 4 {
